@@ -491,6 +491,29 @@ fn run_plugins(dic: &JapaneseDictionary, text: &str, upto: Option<usize>) -> Res
     }
 }
 
+/// the same text through a buffer that was used for other texts before (reset + fill + start_build + plugins + build)
+fn run_plugins_recycled(dic: &JapaneseDictionary, buf: &mut InputBuffer, text: &str) -> Result<Vec<(String, Vec<usize>)>, String> {
+    let r = catch(|| -> Result<Vec<(String, Vec<usize>)>, String> {
+        buf.reset().push_str(text);
+        buf.start_build().map_err(|e| format!("{:?}", e))?;
+        let mut stages = vec![];
+        for p in dic.input_text_plugins().iter() {
+            p.rewrite(buf).map_err(|e| format!("{:?}", e))?;
+            let cur = buf.current().to_string();
+            let mut m: Vec<usize> = cur.char_indices().map(|(b, _)| buf.get_original_index(b)).collect();
+            m.push(buf.get_original_index(cur.len()));
+            stages.push((cur, m));
+        }
+        buf.build(dic.grammar()).map_err(|e| format!("{:?}", e))?;
+        Ok(stages)
+    });
+    match r {
+        Ok(Ok(x)) => Ok(x),
+        Ok(Err(e)) => Err(format!("err {}", e)),
+        Err(p) => Err(format!("PANIC {}", p)),
+    }
+}
+
 fn plugin_json(cfg: &Cfg, p: char) -> String {
     let chars_json = |v: &[char]| -> String {
         let items: Vec<String> = v.iter().map(|c| serde_json::to_string(&c.to_string()).unwrap()).collect();
@@ -539,6 +562,9 @@ struct Loaded {
     cfg: Cfg,
     dic: Option<JapaneseDictionary>,
     load_err: String,
+    /// one buffer per configuration that is RECYCLED (reset / fill / start_build / plugins / build) for every text of the
+    /// group, the way StatefulTokenizer uses its buffer: the rewritten text must not depend on what the buffer held before
+    recycled: std::cell::RefCell<InputBuffer>,
 }
 
 fn tiny_system() -> Vec<u8> {
@@ -553,8 +579,8 @@ fn load_cfg(wd: &Workdir, system: &[u8], cfg: Cfg) -> Loaded {
     let input: Vec<String> = cfg.pipe.iter().map(|&p| plugin_json(&cfg, p)).collect();
     let json = config_json(wd, &input, &[simple_oov_json(0, 0, 100)], &[], &[]);
     match load(&json, system.to_vec(), vec![]) {
-        Ok(d) => Loaded { cfg, dic: Some(d), load_err: String::new() },
-        Err(e) => Loaded { cfg, dic: None, load_err: e },
+        Ok(d) => Loaded { cfg, dic: Some(d), load_err: String::new(), recycled: std::cell::RefCell::new(InputBuffer::new()) },
+        Err(e) => Loaded { cfg, dic: None, load_err: e, recycled: std::cell::RefCell::new(InputBuffer::new()) },
     }
 }
 
@@ -660,6 +686,24 @@ fn one_case(run: &mut Run, idx: usize, ld: &Loaded, text: &str, earliest: bool) 
     run.bump("outcome:ok");
     if slow_path(text) { run.bump("default-path:slow(if D first)"); } else { run.bump("default-path:fast(if D first)"); }
     run.bump(&format!("text-len:{}", (text.chars().count() / 4) * 4));
+    // ---- oracle: the rewritten text is a function of the input alone - a recycled buffer gives the same stages
+    {
+        let mut rb = ld.recycled.borrow_mut();
+        match run_plugins_recycled(dic, &mut rb, text) {
+            Ok(rs) => {
+                run.bump("recycled-buffer:compared");
+                if rs != stages {
+                    run.fail(idx, &format!("history:{}", pipe_s), &format!(
+                        "the same text {:?} through a buffer that held other texts before gives {:?}, through a new buffer {:?}",
+                        text, rs.iter().map(|s| s.0.clone()).collect::<Vec<_>>(), stages.iter().map(|s| s.0.clone()).collect::<Vec<_>>()));
+                }
+            }
+            Err(e) => {
+                *rb = InputBuffer::new();
+                run.fail(idx, &format!("history:{}", pipe_s), &format!("rewriting {:?} failed in a recycled buffer although it succeeds in a new one: {}", text, e));
+            }
+        }
+    }
     // ---- oracle: each stage against the naive specification applied to the previous stage's actual output
     let mut prev = text.to_string();
     for (i, &p) in cfg.pipe.iter().enumerate() {
